@@ -761,6 +761,9 @@ pub struct EndTrack {
     /// a RST was delivered to this end whose sequence number is not the next
     /// one this end expects (= the highest ACK it has emitted)
     pub stale_rst_delivered: bool,
+    /// a segment occupying sequence space was delivered to this end although
+    /// this end had already acknowledged all of it (a duplicate)
+    pub got_duplicate: bool,
 }
 
 #[derive(Clone, Debug, Default, Serialize)]
@@ -936,6 +939,14 @@ impl Tracker {
         if dst_end.isn.is_none() && !(t.syn && !t.ackf) {
             // the destination has not sent its SYN-ACK yet: it cannot process this
             return;
+        }
+        if t.syn || t.fin || t.len > 0 {
+            let seg_end = t.seq.wrapping_add(t.len as u32).wrapping_add((t.syn || t.fin) as u32);
+            if let Some(a) = dst_end.max_ack_emitted {
+                if seq_le(seg_end, a) {
+                    dst_end.got_duplicate = true;
+                }
+            }
         }
         // the stack takes the window from ACK-bearing segments; a SYN only seeds it
         if t.ackf || dst_end.win.is_none() {
